@@ -107,15 +107,47 @@ pub fn check_module(insts: &[AInst], version: u32, generator: u32, bound: u32, j
         }
     }
     // (v) loading the output again gives an equal module
+    // One cause of a different reload is understood and recorded as a known finding (D15): regrouping moves a
+    // numeric type declaration or a typed value definition in front of an OpSwitch / OpConstant that preceded it
+    // in the input, so the same words are split into literals of another width (or rejected) the second time.
+    let regrouping_changes_width = || -> bool {
+        let widths = |seq: &mut dyn Iterator<Item = usize>| -> Vec<(usize, crate::model::Width)> {
+            let mut tm = crate::model::TypeModel::new();
+            let mut v = vec![];
+            for i in seq {
+                let x = &insts[i];
+                let key = match x.opname().as_str() {
+                    "Switch" if x.ops.len() > 2 => x.ops.first().and_then(|o| o.word()),
+                    "Constant" | "SpecConstant" => x.rtype,
+                    _ => None,
+                };
+                if let Some(k) = key {
+                    v.push((i, tm.width(k)));
+                }
+                tm.observe(x);
+            }
+            v.sort_by_key(|(i, _)| *i);
+            v
+        };
+        widths(&mut (0..insts.len())) != widths(&mut order.iter().copied())
+    };
     match catch(|| dr::load_words(&out)) {
         Ok(Ok(m2)) => {
             if let Some(d) = rs::module_diff(&m, &m2) {
-                fail(r, "reload-differs".into(), format!("load(assemble(load(B))) differs: {}", d));
+                if regrouping_changes_width() {
+                    fail(r, "reload:literal-width-depends-on-regrouping".into(), format!("load(assemble(load(B))) differs: {}", d));
+                } else {
+                    fail(r, "reload-differs".into(), format!("load(assemble(load(B))) differs: {}", d));
+                }
                 return None;
             }
         }
         Ok(Err(e)) => {
-            fail(r, "reload-rejected".into(), format!("the assembled output is rejected on reload: {:?}", e));
+            if regrouping_changes_width() {
+                fail(r, "reload:literal-width-depends-on-regrouping".into(), format!("the assembled output is rejected on reload: {:?}", e));
+            } else {
+                fail(r, "reload-rejected".into(), format!("the assembled output is rejected on reload: {:?}", e));
+            }
             return None;
         }
         Err(p) => {
@@ -135,7 +167,7 @@ pub fn check_module(insts: &[AInst], version: u32, generator: u32, bound: u32, j
 }
 
 pub fn run(cfg: &Cfg, rep: &mut Report) {
-    rep.rule = "modules from the table-directed generator (every one of the 787 opcodes over the run; sections in layout order or interleaved with module-level instructions dropped into function bodies; 0..3 functions; random non-zero bytes after string terminators in half of the inputs), loaded with load_words: output header (magic, version major.minor, bound), output words == the input's instructions regrouped by the loader automaton's logical-layout order with relative order preserved (word-wise under a mask that frees only post-NUL string padding), layout-ordered inputs word-identical from word 5 on, reload of the output equal section by section, load_bytes == load_words. distinct_nontrivial = distinct opcodes round-tripped x layout mode".into();
+    rep.rule = "modules from the table-directed generator (every one of the 787 opcodes over the run; sections in layout order or interleaved with module-level instructions dropped into function bodies; 0..3 functions; random non-zero bytes after string terminators in half of the inputs), loaded with load_words: output header (magic, version major.minor, bound), output words == the input's instructions regrouped by the loader automaton's logical-layout order with relative order preserved (word-wise under a mask that frees only post-NUL string padding), layout-ordered inputs word-identical from word 5 on, reload of the output equal section by section, load_bytes == load_words; stage `mutated`: every binary the loader accepts among the mutants of C03's generator (18 structured mutators, unknown header versions, ids defined twice, concatenations) comes back with the same total size, the same multiset of (word count, opcode) first words and the same multiset of instructions (word for word, or as decoded where only string padding differs). distinct_nontrivial = distinct opcodes round-tripped x layout mode".into();
     rep.assumptions.push("expected grouping comes from the loader automaton written from SPIR-V 1.6 §2.4 (harness/src/spec.rs, model.rs); excluded as the property states: OpLine/OpNoLine inside a function outside a block, more than one OpMemoryModel".into());
     let d = db();
     let n_ops = d.insts.len() as u64;
@@ -147,6 +179,128 @@ pub fn run(cfg: &Cfg, rep: &mut Report) {
         if check_module(&insts, 0x0001_0600, 0, 1 << 22, if idx % 2 == 0 { Some(&mut junk_rng) } else { None }, false, r, &rp) == Some("ok") {
             r.nontrivial(format!("scale:{}", label));
         }
+    });
+    // whatever the loader accepts - also binaries no generator of well-formed modules would write (mutants,
+    // unknown versions, ids defined twice, concatenations) - must come back with every instruction: same
+    // number of words in total, the same multiset of (word count, opcode) first words, the same multiset of
+    // decoded instructions
+    run_stage(cfg, rep, "mutated", cfg.n(30_000, 6_000_000), |idx, rng, r| {
+        use crate::mutate::{self, Base};
+        let small = rng.chance(1, 2);
+        let b = crate::mon::c03::gen_base(rng, vec![], small);
+        let m = (idx % (mutate::N_MUTATORS as u64)) as usize;
+        let (bytes, label) = mutate::mutate(rng, &Base { words: &b.words, starts: &b.starts, insts: &b.insts }, m);
+        if bytes.len() % 4 != 0 || bytes.len() < 20 {
+            return;
+        }
+        let words: Vec<u32> = bytes.chunks(4).map(|c| u32::from_le_bytes([c[0], c[1], c[2], c[3]])).collect();
+        let rp = || crate::util::replay_ref(cfg, "mutated", idx).set("binary", hex_words(&words)).set("mutation", label.clone());
+        let module = match catch(|| dr::load_words(&words)) {
+            Ok(Ok(m)) => m,
+            Ok(Err(_)) => {
+                r.count("mutants_not_accepted", 1);
+                return;
+            }
+            Err(p) => {
+                r.violation(format!("C01:panic:{}", crate::util::panic_key(&p)), format!("load_words panicked: {}", p.msg), rp());
+                return;
+            }
+        };
+        // split the input by word counts; note what the property excludes
+        let firsts = |w: &[u32]| -> Option<Vec<u32>> {
+            let mut v = vec![];
+            let mut p = 5;
+            while p < w.len() {
+                let wc = (w[p] >> 16) as usize;
+                if wc == 0 || p + wc > w.len() {
+                    return None;
+                }
+                v.push(w[p]);
+                p += wc;
+            }
+            Some(v)
+        };
+        let fin = match firsts(&words) {
+            Some(f) => f,
+            None => {
+                r.violation("C01:accepted-unsplittable".to_string(), format!("the loader accepted a binary whose word counts do not tile it ({})", label), rp());
+                return;
+            }
+        };
+        let opc = |name: &str| d.inst(name).opcode as u32;
+        let (mm, line, noline, func, fend, label_op) = (opc("MemoryModel"), opc("Line"), opc("NoLine"), opc("Function"), opc("FunctionEnd"), opc("Label"));
+        let mut in_fn = false;
+        let mut in_block = false;
+        let mut excluded = fin.iter().filter(|f| *f & 0xffff == mm).count() > 1;
+        for f in &fin {
+            let o = f & 0xffff;
+            if o == func {
+                in_fn = true;
+                in_block = false;
+            } else if o == fend {
+                in_fn = false;
+                in_block = false;
+            } else if o == label_op {
+                in_block = true;
+            } else if let Some(ri) = d.lookup(o as u16) {
+                if crate::spec::is_block_terminator(&ri.opname) {
+                    in_block = false;
+                }
+            }
+            if (o == line || o == noline) && in_fn && !in_block {
+                excluded = true;
+            }
+        }
+        if excluded {
+            r.count("mutants_outside_guarantee", 1);
+            return;
+        }
+        let out = match catch(|| module.assemble()) {
+            Ok(o) => o,
+            Err(p) => {
+                r.violation(format!("C01:panic:{}", crate::util::panic_key(&p)), format!("assemble panicked: {}", p.msg), rp());
+                return;
+            }
+        };
+        let fout = firsts(&out).unwrap_or_default();
+        let (mut a, mut bq) = (fin.clone(), fout.clone());
+        a.sort();
+        bq.sort();
+        if out.len() != words.len() || a != bq {
+            let rule = if fout.len() < fin.len() { "instruction-dropped" } else if fout.len() > fin.len() { "instruction-invented" } else { "reencoded-length" };
+            r.violation(format!("C01:mutated:{}", rule), format!("accepted binary ({}): input has {} instructions / {} words, load + assemble gives {} instructions / {} words", label, fin.len(), words.len(), fout.len(), out.len()), rp());
+            return;
+        }
+        // the same multiset of instructions: word for word, or - where only the padding after a string
+        // terminator differs - as decoded (decoding alone is not compared: when an id is defined twice the
+        // regrouped output legitimately decodes context-dependent literals by another declaration)
+        let slices = |w: &[u32]| -> Vec<Vec<u32>> {
+            let mut v = vec![];
+            let mut p = 5;
+            while p < w.len() {
+                let wc = (w[p] >> 16) as usize;
+                v.push(w[p..p + wc].to_vec());
+                p += wc;
+            }
+            v.sort();
+            v
+        };
+        let raw_equal = slices(&words) == slices(&out);
+        let (pa, pb) = (rs::parse_rec_words(&words), rs::parse_rec_words(&out));
+        if raw_equal {
+        } else if let (Ok(pa), Ok(pb)) = (pa, pb) {
+            let key = |i: &dr::Instruction| format!("{:?}", i);
+            let (mut ka, mut kb): (Vec<String>, Vec<String>) = (pa.rec.insts.iter().map(key).collect(), pb.rec.insts.iter().map(key).collect());
+            ka.sort();
+            kb.sort();
+            if ka != kb {
+                let diff = ka.iter().zip(&kb).find(|(x, y)| x != y).map(|(x, y)| format!("{} / {}", x.chars().take(200).collect::<String>(), y.chars().take(200).collect::<String>())).unwrap_or_default();
+                r.violation("C01:mutated:instruction-changed".to_string(), format!("accepted binary ({}): the instructions of load + assemble are not those of the input: {}", label, diff), rp());
+                return;
+            }
+        }
+        r.count("mutants_accepted_and_reproduced", 1);
+        r.nontrivial(format!("mutated:m{}", m));
     });
     let n = cfg.n(n_ops * 20, n_ops * 6000);
     run_stage(cfg, rep, "modules", n, |idx, rng, r| {
